@@ -8,4 +8,6 @@ INVARIANT InvWellFormed
 INVARIANT InvDeclarationOrder
 INVARIANT InvNullAddsNothing
 INVARIANT InvSorted
+INVARIANT InvStepWellFormed
+INVARIANT InvRuntimeEnv
 INVARIANT EmitInv
